@@ -129,6 +129,9 @@ func readCableLabsEbp(data []byte) (ebp *cableLabsEbp, err error) {
 		index += uint8(1)
 
 		for groupExtFlag {
+			if int(index) >= len(data) || index == 0xFF {
+				return nil, gots.ErrInvalidEBPLength
+			}
 			groupExtFlag = data[index]&0x80 != 0
 			group = data[index] & 0x7F
 			ebp.Grouping = append(ebp.Grouping, group)
